@@ -144,9 +144,19 @@ def show(x):
     return 'accepts %d bytes as %s' % (x[0], x[1])
 
 
+OPERANDS = ['a', 'b', 'c(v)', 'c(f)', 'neg(a)']
+
 def file_job(e, p):
-    L = p['L']; canary = p.get('canary')
-    bs, inp = sym_input(e, L)
+    canary = p.get('canary')
+    if p.get('shapes'):
+        # longer well-formed files than the byte-wise jobs reach: ac(a,OP(X,Y)). ac(b,neg(Y)). with the connective and both operands chosen by the
+        # solver among the five connectives and {a, b, c(v), c(f), neg(a)}; what the parser stores must be the tree that is written (constants included)
+        op = BINOPS[e.choose(len(BINOPS), 'op')]; x = OPERANDS[e.choose(len(OPERANDS), 'x')]; y = OPERANDS[e.choose(len(OPERANDS), 'y')]
+        text = 's(a).s(b).ac(a,%s(%s,%s)).ac(b,neg(%s)).' % (op, x, y, y)
+        bs = list(text.encode()); inp = SymStr(bs); L = len(bs)
+    else:
+        L = p['L']
+        bs, inp = sym_input(e, L)
     if p.get('prefix'):
         for b, ch in zip(bs, p['prefix']): e.assume(b == ord(ch))
     def on_panic(e_, msg):
@@ -278,6 +288,7 @@ def spec(ctx, tier, seed):
         jobs.append(Job('formula-%s(+%d' % (op, k), mod, 'formula_job', {'L': len(op) + 1 + k, 'prefix': op + '('}, stop_after_violations=40))
     jobs.append(Job('file-ac(+%d' % (k + 2), mod, 'file_job', {'L': 3 + k + 2, 'prefix': 'ac('}, stop_after_violations=40))
     jobs.append(Job('file-s(+%d' % (k + 2), mod, 'file_job', {'L': 2 + k + 2, 'prefix': 's('}, stop_after_violations=40))
+    jobs.append(Job('file-shapes', mod, 'file_job', {'shapes': True}, stop_after_violations=40))
     for L in (range(5, 9) if tier == 'quick' else range(5, 11)):
         jobs.append(Job('file-L%d' % L, mod, 'file_job', {'L': L}, stop_after_violations=40))
     # longer files: a fixed well-formed first fact, the rest symbolic (second fact, duplicates, trailing garbage)
@@ -287,6 +298,6 @@ def spec(ctx, tier, seed):
     return {'jobs': jobs, 'level': 'model_checking', 'allowed_status': ('ok', 'panic'),
             'assumptions': ASSUMPTIONS + ['nom combinators (tag, take_until, alphanumeric1, multispace0, alt, many1, all_consuming, value, preceded, terminated, delimited, separated_pair) '
                                           'are models of their documented contracts (validated differentially on concrete texts every run)', 'inputs are valid UTF-8 over the stated alphabet'],
-            'bounds': 'formula level: all byte strings of length <= %d over the %d-symbol alphabet %r plus the two-byte character e-acute; file level: all strings of length 5..%d, plus a fixed first fact followed by %d symbolic bytes; every connective prefix op( / ac( / s( followed by 5-7 (quick) or 7-9 (thorough) symbolic bytes'
+            'bounds': 'formula level: all byte strings of length <= %d over the %d-symbol alphabet %r plus the two-byte character e-acute; file level: all strings of length 5..%d, plus a fixed first fact followed by %d symbolic bytes; every connective prefix op( / ac( / s( followed by 5-7 (quick) or 7-9 (thorough) symbolic bytes; 125 two-fact files ac(a,OP(X,Y)).ac(b,neg(Y)). with connective and operands (statements, constants, a negation) chosen by the solver'
                       % (max(LF), len(ALPHABET), ALPHABET, 8 if tier == 'quick' else 10, 6 if tier == 'quick' else 8),
             'outside': 'longer inputs; bytes outside the alphabet (other letters/digits behave like b, z, 1; other non-ASCII characters like e-acute); nom internals; the CLI / web halves of the statement (exit status, parse_only = Error)'}
